@@ -47,7 +47,6 @@ package generator
 //@   loop 1.1.1 invariant forall k int :: 0 <= k && k < old(len(fm.files)) ==> fm.files[k] == old(fm.files[k]) && *fm.files[k].Name == old(*fm.files[k].Name) && fm.files[k].Content == old(fm.files[k].Content)
 //@   loop 1.1.1 invariant old(files[0].Name) != nil
 //@   loop 1.1.1 invariant forall a int :: i <= a && a < len(files) ==> files[a].Name == old(files[a].Name)
-//@   site assign:fm.index[renamed] assume-known-finding C12-rename-collision: !inDom(fm.index, renamed)
 
 // ---- insertion points ----
 
